@@ -46,6 +46,8 @@ func (c *Check) noPubHandlerIn(id string, ctor *ssa.Function) *ssa.Function {
 func runC17(c *Check) {
 	c17Forwarder(c)
 	c17ForwarderPublisher(c)
+	// the forwarder pair relays through the JSON envelope: its field-by-field agreement (also decided as C16.O4) is what keeps UUID, payload and metadata intact
+	c16Envelope(c, "C17.O2")
 	c17Requeuer(c)
 	c17FanIn(c)
 	c17FanOut(c)
@@ -99,7 +101,7 @@ func c17Forwarder(c *Check) {
 	ackTrue, _ := BoolEdges(fn, exportedFieldLoad("AckWhenCannotUnwrap"))
 	c.Floor(P+".O1", "test of AckWhenCannotUnwrap", len(ackTrue), 1)
 	c.Floor(P+".O1", "test `unwrap error != nil`", len(uwFail), 1)
-	c.Floor(P+".O1", "test `publish error == nil`", len(pubOK), 1)
+	c.Floor(P+".O1", "test `publish error == nil` (or the Publish result returned as it is)", len(pubOK)+tailReturns(fn, ResultOfAny(pubs, 0)), 1)
 	for _, e := range ackTrue {
 		c.Report(GuardedBy(fn, e.From.Instrs[len(e.From.Instrs)-1], uwFail), P+".O1", "ACK-OPTION-ONLY-ON-UNWRAP-ERROR", fn, e.From.Instrs[len(e.From.Instrs)-1].Pos(), "AckWhenCannotUnwrap test",
 			"AckWhenCannotUnwrap is consulted only on the unwrap-error edge")
@@ -143,6 +145,18 @@ func c17Forwarder(c *Check) {
 		subs := ParamsOfType(ctor, msgPkg+".Subscriber")
 		c.Report(len(subs) == 1 && FromParam(subs[0])(Arg(ad, 2)), P+".O2", "FORWARDER-SUBSCRIBER", ctor, ad.Pos(), "registration", "the forwarder consumes from the given subscriber")
 	}
+}
+
+// tailReturns counts the returns whose last result is exactly the tracked
+// call's result (`return pub.Publish(…)`): nil iff the call succeeded, no test needed.
+func tailReturns(fn *ssa.Function, isRes func(ssa.Value) bool) int {
+	n := 0
+	for _, r := range Returns(fn) {
+		if len(r.Results) > 0 && AllOrigins(r.Results[len(r.Results)-1], isRes) {
+			n++
+		}
+	}
+	return n
 }
 
 // relayReturns checks the nil/non-nil discipline of a relay handler's returns.
@@ -379,7 +393,7 @@ func c17Requeuer(c *Check) {
 		return
 	}
 	pubOK, pubFail := NilEdges(fn, ResultOfAny(pubs, 0))
-	c.Floor(P+".O1", "test `publish error == nil` in the requeuer", len(pubOK), 1)
+	c.Floor(P+".O1", "test `publish error == nil` in the requeuer (or the Publish result returned as it is)", len(pubOK)+tailReturns(fn, ResultOfAny(pubs, 0)), 1)
 	relayReturns(c, P, fn, pubOK, pubFail, "nil (⇒ Ack) is returned only after the destination accepted the message")
 	// topic generator
 	var gens []ssa.CallInstruction
@@ -439,7 +453,8 @@ func c17Requeuer(c *Check) {
 					// both the parsed value (on the no-error edge) and the fallback 0 (on the parse-error edge) must be there
 					var atoi *ssa.Call
 					hasZero := false
-					for _, o := range Origins(x) {
+					xs, okHelper := expandHelperInts(Origins(x), fn.Pkg, FromParam(msg))
+					for _, o := range xs {
 						if z, isZ := IntConst(o); isZ && z == 0 {
 							hasZero = true
 						}
@@ -449,11 +464,11 @@ func c17Requeuer(c *Check) {
 					}
 					okFallback := false
 					if atoi != nil && hasZero {
-						_, perr := NilEdges(fn, func(v ssa.Value) bool { return IsResultOf(v, atoi, 1) })
-						okFallback = len(perr) > 0
+						_, perr := NilEdges(atoi.Parent(), func(v ssa.Value) bool { return IsResultOf(v, atoi, 1) })
+						okFallback = len(perr) > 0 && okHelper
 					}
 					c.Report(okFallback, P+".O3", "RETRIES-PARSE-ERROR-IS-ZERO", fn, s.Pos(), "Set(RetriesKey)", "a counter that does not parse (absent, malformed, out of range) counts as 0: the parse error is tested and replaced by 0")
-					okInc = AllOrigins(x, func(v ssa.Value) bool {
+					okInc = okHelper && len(xs) > 0 && allOf(xs, func(v ssa.Value) bool {
 						if z, isZ := IntConst(v); isZ && z == 0 {
 							return true
 						}
@@ -755,4 +770,40 @@ func destNonEmptyEdges(fn *ssa.Function) []Edge {
 		}
 	}
 	return out
+}
+
+func allOf(vs []ssa.Value, pred func(ssa.Value) bool) bool {
+	for _, v := range vs {
+		if !pred(v) {
+			return false
+		}
+	}
+	return true
+}
+
+// expandHelperInts replaces, in a list of origins, the result of a call to an
+// in-package helper by the values that helper returns (one level). ok is false
+// if such a helper is handed a message other than the one isMsg accepts.
+func expandHelperInts(os []ssa.Value, pkg *ssa.Package, isMsg func(ssa.Value) bool) (out []ssa.Value, ok bool) {
+	ok = true
+	for _, o := range os {
+		call, isCall := o.(*ssa.Call)
+		var cal *ssa.Function
+		if isCall {
+			cal = CalleeFn(&call.Call)
+		}
+		if cal == nil || cal.Pkg != pkg || len(cal.Blocks) == 0 || cal.Signature.Results().Len() != 1 {
+			out = append(out, o)
+			continue
+		}
+		for _, a := range call.Call.Args {
+			if a.Type().String() == tMessagePtr && !isMsg(a) {
+				ok = false
+			}
+		}
+		for _, vals := range ReturnValues(cal, 0) {
+			out = append(out, vals...)
+		}
+	}
+	return out, ok
 }
